@@ -18,6 +18,8 @@ for dp, dn, fn in os.walk(os.path.join(REPO, 'dadi')):
             tree = ast.parse(open(p, encoding='utf-8').read())
         except SyntaxError:
             continue
+        # the same canonical forms the loader applies before it pairs names
+        alpha.strip_noops(tree); alpha.set_alpha_parents(tree); alpha.inline_return_temporaries(tree)
         d = {}
         for q, node in alpha.top_functions(tree):
             if alpha.unsafe(node):
@@ -27,10 +29,25 @@ for dp, dn, fn in os.walk(os.path.join(REPO, 'dadi')):
                 d[q] = names
         if d:
             out[rel] = d
+# operand order of the commutative operations of the confirmed form (after the same normalisations)
+com = {}
+for rel, fns in out.items():
+    tree = ast.parse(open(os.path.join(REPO, rel), encoding='utf-8').read())
+    alpha.strip_noops(tree); alpha.set_alpha_parents(tree); alpha.inline_return_temporaries(tree)
+    d = {}
+    for q, node in alpha.top_functions(tree):
+        if alpha.unsafe(node):
+            continue
+        pr = alpha.commutative_pairs(node)
+        if pr:
+            d[q] = [list(x) for x in pr]
+    if d:
+        com[rel] = d
+out['__commutative__'] = com
 with open(alpha.TABLE, 'w') as fh:
     json.dump(out, fh, indent=0, sort_keys=True)
     fh.write('\n')
-print('functions:', sum(len(v) for v in out.values()))
+print('functions:', sum(len(v) for k, v in out.items() if k != '__commutative__'))
 
 # C functions: locals in order of declaration
 os.environ['VERIF_NO_ALPHA'] = '1'
